@@ -5,7 +5,7 @@ package types
 
 // IsOpen reads the package-level slice NonSettledStatuses = {Pending, Candidate, Proven} through the generic
 // slices.Contains; assumed: that variable is never reassigned (no store to it exists in the module).
-//@ func (c CertificateStatus) IsOpen
+//@ func (c CertificateStatus) IsOpen (c)
 //@   trusted
 //@   modifies nothing
 //@   ensures result == (c == Pending || c == Candidate || c == Proven)
@@ -17,7 +17,7 @@ package types
 // carried by the exit (or keccak of the empty string when the exit carries none)
 //@ spec fn exitLeafValue(leafType int, originNetwork int, originAddress Addr, destinationNetwork int, destinationAddress Addr, amount int, metadataPiece Bytes) Hash = keccak(cat7(bytes1(leafType), beNB(originNetwork, 4), bytesOf(ab(originAddress), 20), beNB(destinationNetwork, 4), bytesOf(ab(destinationAddress), 20), beNB(amount, 32), metadataPiece))
 
-//@ func (b *BridgeExit) Hash
+//@ func (b *BridgeExit) Hash (b)
 //@   props C03 C10
 //@   requires b != nil && b.TokenInfo != nil && b.Amount != nil
 //@   requires 0 <= bigval(b.Amount) && bigval(b.Amount) < 115792089237316195423570985008687907853269984665640564039457584007913129639936
@@ -35,13 +35,13 @@ package types
 // canonical value flag*2^64 + (flag ? 0 : rollup)*2^32 + leaf, the same value the wire conversion sends
 //@ spec fn giVal(flag bool, rollup int, leaf int) int = ite(flag, 18446744073709551616, rollup * 4294967296) + leaf
 
-//@ func (g *GlobalIndex) Hash
+//@ func (g *GlobalIndex) Hash (g)
 //@   props C10 C19
 //@   requires g != nil
 //@   modifies nothing
 //@   ensures[commits-to-canonical-index] result == keccak(catB(emptyB(), leB(giVal(g.MainnetFlag, g.RollupIndex, g.LeafIndex))))
 
-//@ func (c *ImportedBridgeExit) GlobalIndexToLittleEndianBytes
+//@ func (c *ImportedBridgeExit) GlobalIndexToLittleEndianBytes (c)
 //@   props C10 C19
 //@   requires c != nil && c.GlobalIndex != nil
 //@   modifies nothing
@@ -50,7 +50,7 @@ package types
 // ---- the pessimistic-proof commitment (C10): keccak(new local exit root ‖ keccak(hashes of the global indexes of the
 // imported bridge exits, in order)). ppChunks is the ghost sequence of those hashes.
 //@ ghost var ppChunks map[int]Hash
-//@ func (c *Certificate) PPHashToSign
+//@ func (c *Certificate) PPHashToSign (c)
 //@   props C10
 //@   requires c != nil && forall(k, 0, len(c.ImportedBridgeExits), c.ImportedBridgeExits[k] != nil && c.ImportedBridgeExits[k].GlobalIndex != nil)
 //@   modifies ppChunks
@@ -69,7 +69,7 @@ package types
 //@   ensures result == claimHash(self)
 
 //@ spec fn ibeHash(be Hash, claim Hash, gi Hash) Hash = keccak(catB(catB(catB(emptyB(), bytesOf(hb(be), 32)), bytesOf(hb(claim), 32)), bytesOf(hb(gi), 32)))
-//@ func (c *ImportedBridgeExit) Hash
+//@ func (c *ImportedBridgeExit) Hash (c)
 //@   props C10
 //@   requires c != nil && c.BridgeExit != nil && c.BridgeExit.TokenInfo != nil && c.BridgeExit.Amount != nil && c.ClaimData != nil && c.GlobalIndex != nil
 //@   requires 0 <= bigval(c.BridgeExit.Amount) && bigval(c.BridgeExit.Amount) < 115792089237316195423570985008687907853269984665640564039457584007913129639936
@@ -78,7 +78,7 @@ package types
 //@   ensures[unchanged] c.BridgeExit.Amount == old(c.BridgeExit.Amount)
 //@ ghost var idExits map[int]Hash
 //@ ghost var idImported map[int]Hash
-//@ func (c *Certificate) Hash
+//@ func (c *Certificate) Hash (c)
 //@   props C10
 //@   requires c != nil
 //@   requires forall(k, 0, len(c.BridgeExits), c.BridgeExits[k] != nil && c.BridgeExits[k].TokenInfo != nil && c.BridgeExits[k].Amount != nil && 0 <= bigval(c.BridgeExits[k].Amount) && bigval(c.BridgeExits[k].Amount) < 115792089237316195423570985008687907853269984665640564039457584007913129639936)
@@ -103,7 +103,7 @@ package types
 // little-endian bytes ‖ aggchain params), one 64-byte chunk per imported exit = canonical global index (little endian)
 // ‖ exit leaf value, in order. fepChunks is the ghost sequence of the chunks' byte strings.
 //@ ghost var fepChunks map[int]Bytes
-//@ func (c *Certificate) FEPHashToSign
+//@ func (c *Certificate) FEPHashToSign (c)
 //@   props C10
 //@   requires c != nil
 //@   requires forall(k, 0, len(c.ImportedBridgeExits), c.ImportedBridgeExits[k] != nil && c.ImportedBridgeExits[k].BridgeExit != nil && c.ImportedBridgeExits[k].BridgeExit.TokenInfo != nil && c.ImportedBridgeExits[k].BridgeExit.Amount != nil && c.ImportedBridgeExits[k].GlobalIndex != nil && 0 <= bigval(c.ImportedBridgeExits[k].BridgeExit.Amount) && bigval(c.ImportedBridgeExits[k].BridgeExit.Amount) < 115792089237316195423570985008687907853269984665640564039457584007913129639936)
@@ -117,7 +117,7 @@ package types
 //@   loop 0 invariant forall(k, 0, rangeindex + 1, bytesOf(seq(chunks[k]), len(chunks[k])) == catB(catB(emptyB(), leB(giVal(c.ImportedBridgeExits[k].GlobalIndex.MainnetFlag, c.ImportedBridgeExits[k].GlobalIndex.RollupIndex, c.ImportedBridgeExits[k].GlobalIndex.LeafIndex))), bytesOf(hb(exitLeafValue(c.ImportedBridgeExits[k].BridgeExit.LeafType, c.ImportedBridgeExits[k].BridgeExit.TokenInfo.OriginNetwork, c.ImportedBridgeExits[k].BridgeExit.TokenInfo.OriginTokenAddress, c.ImportedBridgeExits[k].BridgeExit.DestinationNetwork, c.ImportedBridgeExits[k].BridgeExit.DestinationAddress, bigval(c.ImportedBridgeExits[k].BridgeExit.Amount), ite(len(c.ImportedBridgeExits[k].BridgeExit.Metadata) == 0, bytesOf(hb(keccak(emptyB())), 32), bytesOf(seq(c.ImportedBridgeExits[k].BridgeExit.Metadata), len(c.ImportedBridgeExits[k].BridgeExit.Metadata))))), 32)))
 
 // closed = not open (proved from IsOpen's contract)
-//@ func (c CertificateStatus) IsClosed
+//@ func (c CertificateStatus) IsClosed (c)
 //@   props C02 C13
 //@   modifies nothing
 //@   ensures result == !(c == Pending || c == Candidate || c == Proven)
@@ -126,7 +126,7 @@ package types
 // root and to all 32 siblings in order; the L1 info leaf commits to the global exit root, the block hash and the
 // timestamp (8 bytes big-endian); a claim commits to its proofs and its L1 leaf in the listed order.
 //@ spec fn proofHash(root Hash, sib []Hash) Hash = keccak(catB(catB(emptyB(), bytesOf(hb(root), 32)), chainH(sib, 32)))
-//@ func (m *MerkleProof) Hash
+//@ func (m *MerkleProof) Hash (m)
 //@   props C10 C09
 //@   requires m != nil
 //@   modifies nothing
@@ -135,23 +135,23 @@ package types
 //@   loop 0 invariant bytesOf(seq(proofsAsSingleSlice), len(proofsAsSingleSlice)) == chainH(m.Proof, rangeindex + 1)
 
 //@ spec fn l1LeafHash(ger Hash, blockHash Hash, ts int) Hash = keccak(catB(catB(catB(emptyB(), bytesOf(hb(ger), 32)), bytesOf(hb(blockHash), 32)), beNB(ts, 8)))
-//@ func (l *L1InfoTreeLeafInner) Hash
+//@ func (l *L1InfoTreeLeafInner) Hash (l)
 //@   props C10 C09
 //@   requires l != nil
 //@   modifies nothing
 //@   ensures[commits-to-ger-block-hash-and-time] result == l1LeafHash(l.GlobalExitRoot, l.BlockHash, l.Timestamp)
-//@ func (l *L1InfoTreeLeaf) Hash
+//@ func (l *L1InfoTreeLeaf) Hash (l)
 //@   props C10 C09
 //@   requires l != nil && l.Inner != nil
 //@   modifies nothing
 //@   ensures[is-the-inner-leafs-hash] result == l1LeafHash(l.Inner.GlobalExitRoot, l.Inner.BlockHash, l.Inner.Timestamp)
 
-//@ func (c *ClaimFromMainnnet) Hash
+//@ func (c *ClaimFromMainnnet) Hash (c)
 //@   props C10 C09
 //@   requires c != nil && c.ProofLeafMER != nil && c.ProofGERToL1Root != nil && c.L1Leaf != nil && c.L1Leaf.Inner != nil
 //@   modifies nothing
 //@   ensures[commits-to-both-proofs-and-the-leaf] result == keccak(catB(catB(catB(emptyB(), bytesOf(hb(proofHash(c.ProofLeafMER.Root, c.ProofLeafMER.Proof)), 32)), bytesOf(hb(proofHash(c.ProofGERToL1Root.Root, c.ProofGERToL1Root.Proof)), 32)), bytesOf(hb(l1LeafHash(c.L1Leaf.Inner.GlobalExitRoot, c.L1Leaf.Inner.BlockHash, c.L1Leaf.Inner.Timestamp)), 32)))
-//@ func (c *ClaimFromRollup) Hash
+//@ func (c *ClaimFromRollup) Hash (c)
 //@   props C10 C09
 //@   requires c != nil && c.ProofLeafLER != nil && c.ProofLERToRER != nil && c.ProofGERToL1Root != nil && c.L1Leaf != nil && c.L1Leaf.Inner != nil
 //@   modifies nothing
